@@ -128,12 +128,20 @@ func (g *cgGraph) add(e *cgExpr, from ...*cgExpr) {
 		name := fmt.Sprintf("m%d", n)
 		g.pre = append(g.pre, "let "+name+" = "+e.fo)
 		g.eqs = append(g.eqs, e.eqs...)
-		v := &cgExpr{fo: name, ty: e.ty, ground: e.ground}
+		v := &cgExpr{fo: name, ty: e.ty, ground: e.ground, isVar: true}
 		g.lets = append(g.lets, v)
 		g.pool = append(g.pool, v)
 		return
 	}
 	g.pool = append(g.pool, e)
+}
+
+// an expression as the target of a field access: a name stays, anything else is parenthesised
+func (g *cgGraph) atomFo(e *cgExpr) string {
+	if e.isVar {
+		return e.fo
+	}
+	return "(" + e.fo + ")"
 }
 
 func (g *cgGraph) newVar() *cgTy { g.fresh++; return cgVar("F" + strconv.Itoa(g.fresh)) }
@@ -273,7 +281,38 @@ func (g *cgGraph) chain() {
 func (g *cgGraph) derive() bool {
 	e := g.pool[g.r.Intn(len(g.pool))]
 	isG := func(t *cgTy, h string) bool { return t.v == "" && t.head == h && len(t.args) == 0 }
-	switch g.r.Intn(19) {
+	switch g.r.Intn(21) { // 21, 22 (match on the generic union) are not drawn: the arms of a match are not unified by fc - outside the constructs the documentation promises inference for, see DESIGN 0.9
+	case 19, 20: // field of a generic record value whose type is already known to be a Pr instance
+		if e.ty.v != "" || e.ty.head != "Pr" || !e.isVar {
+			return false // only a name can be followed by .Field
+		}
+		if g.r.Intn(2) == 0 {
+			g.add(&cgExpr{fo: g.atomFo(e) + ".PA", ty: e.ty.args[0], ground: e.ground.args[0], eqs: e.eqs}, e)
+		} else {
+			g.add(&cgExpr{fo: g.atomFo(e) + ".PB", ty: e.ty.args[1], ground: e.ground.args[1], eqs: e.eqs}, e)
+		}
+	case 21, 22: // match on a value of the generic union, bound by a let: the payload and the other arm have one type
+		if e.ground.v != "" || e.ground.head != "Opt" || cgHasFunc(e.ground) {
+			return false
+		}
+		c := g.ofGround(e.ground.args[0])
+		if len(c) == 0 {
+			return false
+		}
+		o := c[g.r.Intn(len(c))]
+		if o == e {
+			return false
+		}
+		f := g.newVar()
+		n := len(g.lets)
+		name := fmt.Sprintf("m%d", n)
+		g.take(e)
+		g.take(o)
+		g.pre = append(g.pre, fmt.Sprintf("let %s = match %s with\n           | Som w%d -> w%d\n           | Non -> %s", name, e.fo, n, n, o.fo))
+		g.eqs = append(g.eqs, cgJoin(e.eqs, o.eqs, [][2]*cgTy{{e.ty, cgCon("Opt", f)}, {f, o.ty}})...)
+		v := &cgExpr{fo: name, ty: f, ground: e.ground.args[0], isVar: true}
+		g.lets = append(g.lets, v)
+		g.pool = append(g.pool, v)
 	case 12: // arithmetic / concatenation / comparison with a typed (literal) operand
 		switch {
 		case isG(e.ground, "int") && g.r.Intn(2) == 0:
@@ -433,7 +472,7 @@ func c02GraphGen(r *rand.Rand, name string) (fo string, oracleIn string, nparams
 	}
 	// literals join the pool so that ground-int parameters can be pinned (or not)
 	g.pool = append(g.pool, &cgExpr{fo: "1", ty: cgCon("int"), ground: cgCon("int")}, &cgExpr{fo: "\"s\"", ty: cgCon("string"), ground: cgCon("string")}, &cgExpr{fo: "true", ty: cgCon("bool"), ground: cgCon("bool")})
-	for i := r.Intn(16); i > 0; i-- {
+	for i := r.Intn(18); i > 0; i-- {
 		g.derive()
 	}
 	var conj []string
